@@ -17,7 +17,7 @@
 (* collapse:  "int+" / "int0" / "int-"  [+-]?digits by sign of the value;  "dec+" / "dec0" / "dec-"    *)
 (* digits with a decimal point, no exponent;  "exp" mantissa with exponent;  "nan" / "inf" any         *)
 (* spelling of not-a-number / infinity;  "bool" true|false;  "time" hh:mm:ss;  "date" YYYY-MM-DD;      *)
-(* "empty";  "other".  tx is kept for integers, "bool" and "other" (enumerations may be numerals), dropped for decimals.           *)
+(* "empty";  "other".  tx is kept for integers, short decimals, "bool" and "other" (enumeration values may be numerals).           *)
 EXTENDS Integers, Sequences, FiniteSets, TLC
 
 XRange(s) == {s[i] : i \in DOMAIN s}
